@@ -31,7 +31,7 @@ def dump_graph(module: str, cfg_text: str, timeout: int = 1800, initials: bool =
                 shutil.copy(os.path.join(tlc.SPEC, name), d)
         open(os.path.join(d, "G.cfg"), "w").write(cfg_text)
         dot = os.path.join(d, "graph.dot")
-        proc = subprocess.run(["tlc", "-workers", "4", "-metadir", os.path.join(d, "meta"), "-noGenerateSpecTE",
+        proc = subprocess.run(["tlc", "-workers", "4", "-fp", "7", "-metadir", os.path.join(d, "meta"), "-noGenerateSpecTE",
                                "-dump", "dot,actionlabels", dot, "-config", "G.cfg", module + ".tla"],
                               cwd=d, env=tlc.java_env(), stdout=subprocess.PIPE, stderr=subprocess.STDOUT, text=True,
                               timeout=timeout)
@@ -60,6 +60,14 @@ def dump_graph(module: str, cfg_text: str, timeout: int = 1800, initials: bool =
                     adj.setdefault(m.group(1), [])
         if first is None:
             raise tlc.TLCError("empty graph for %s" % module)
+        # node names are state fingerprints (stable for a given spec); the order of the lines is whatever the
+        # workers happened to produce: sorted, so that the same seed derives the same words in every run
+        for k in adj:
+            adj[k].sort()
+        adj = {k: adj[k] for k in sorted(adj)}
+        inits.sort()
+        if inits:
+            first = inits[0][0]
         if labels:
             return inits, adj, texts
         if initials:
